@@ -27,6 +27,8 @@ def scalar_to_float(s):
 
 
 def arr_to_np(a):
+    if "f" in a:                                  # already floats (a shifted table, C08)
+        return np.array(a["f"], dtype=np.float64).reshape(tuple(a["sh"]))
     flat = [scalar_to_float(s) for s in a["v"]]
     return np.array(flat, dtype=np.float64).reshape(tuple(a["sh"]))
 
